@@ -136,11 +136,11 @@ pub proof fn complete_eq(f: EvaluationFrame, s: Seq<Felt>)
     let d = fsub(s[0].val(), s[1].val());
     if s[0] == s[1] {
         assert(d == 0);
-        assert(0 * f.h(0).val() == 0);
-        assert(0 * 1 == 0);
+        assert(0 * f.h(0).val() == 0) by (nonlinear_arith);
+        assert(0 * 1 == 0) by (nonlinear_arith);
     } else {
         assert(f.sn(0).val() == 0);
-        assert(d * 0 == 0);
+        assert(d * 0 == 0) by (nonlinear_arith);
     }
 }
 pub proof fn complete_eqz(f: EvaluationFrame, s: Seq<Felt>)
@@ -154,10 +154,10 @@ pub proof fn complete_eqz(f: EvaluationFrame, s: Seq<Felt>)
     lemma_honest_at(f, s, sem_eqz(s));
     assert(sem_eqz(s)[0] == b2f(s[0].val() == 0));
     if s[0].val() == 0 {
-        assert(0 * f.h(0).val() == 0);
-        assert(0 * 1 == 0);
+        assert(0 * f.h(0).val() == 0) by (nonlinear_arith);
+        assert(0 * 1 == 0) by (nonlinear_arith);
     } else {
-        assert(s[0].val() * 0 == 0);
+        assert(s[0].val() * 0 == 0) by (nonlinear_arith);
     }
 }
 /// EXPACC: the processor writes h0 = (b & 1 ? base : 1)
@@ -179,11 +179,11 @@ pub proof fn complete_expacc(f: EvaluationFrame, s: Seq<Felt>)
     let base = s[1].val();
     if bit == 1 {
         let t = fsub(base, 1);
-        assert(t * 1 == t);
+        assert(t * 1 == t) by (nonlinear_arith);
         lemma_small(t);
         lemma_self_sub(t);
     } else {
-        assert(fsub(base, 1) * 0 == 0);
+        assert(fsub(base, 1) * 0 == 0) by (nonlinear_arith);
     }
     let b = s[3].val();
     assert((b / 2) * 2 + bit == b);
@@ -229,7 +229,7 @@ pub proof fn lemma_limbs(f: EvaluationFrame, lo: int, hi: int, check: bool)
     assert(f.h(0) == hs[0] && f.h(1) == hs[1] && f.h(2) == hs[2] && f.h(3) == hs[3] && f.h(4) == hs[4]);
     let t0 = lo % 0x10000; let t1 = lo / 0x10000; let t2 = hi % 0x10000; let t3 = hi / 0x10000;
     assert(f.h(0).val() == t0 && f.h(1).val() == t1 && f.h(2).val() == t2 && f.h(3).val() == t3);
-    assert(1 * t0 == t0 && 1 * t2 == t2);
+    assert(1 * t0 == t0 && 1 * t2 == t2) by (nonlinear_arith);
     assert(0x1_0000 * t1 + t0 == lo && 0x1_0000 * t3 + t2 == hi);
     lemma_small(0x1_0000 * t1); lemma_small(0x1_0000 * t3); lemma_small(t0); lemma_small(t2);
     lemma_small(lo); lemma_small(hi);
@@ -251,12 +251,12 @@ pub proof fn lemma_validity(m: int, lo: int, hi: int)
     felt_inv_ax(d);
     if hi == 0xFFFF_FFFF {
         assert(lo == 0);
-        assert(fsub(1, fmul(m, d)) * 0 == 0);
+        assert(fsub(1, fmul(m, d)) * 0 == 0) by (nonlinear_arith);
     } else {
         assert(d % P() != 0) by { lemma_small(d); }
         assert(fmul(d, m) == 1);
         assert(m * d == d * m) by (nonlinear_arith);
-        assert(0 * lo == 0);
+        assert(0 * lo == 0) by (nonlinear_arith);
     }
 }
 pub proof fn complete_u32split(f: EvaluationFrame, s: Seq<Felt>)
@@ -326,16 +326,16 @@ pub proof fn complete_u32sub(f: EvaluationFrame, s: Seq<Felt>)
     lemma_limbs(f, c, 0, false);
     if a < b {
         assert(c == a - b + B32());
-        assert(0x1_0000_0000 * 1 == 0x1_0000_0000);
+        assert(0x1_0000_0000 * 1 == 0x1_0000_0000) by (nonlinear_arith);
         lemma_small(0x1_0000_0000);
         lemma_small(b + c);
         lemma_small(b + c - 0x1_0000_0000);
-        assert(1 * 1 == 1);
+        assert(1 * 1 == 1) by (nonlinear_arith);
     } else {
         assert(c == a - b);
-        assert(0x1_0000_0000 * 0 == 0);
+        assert(0x1_0000_0000 * 0 == 0) by (nonlinear_arith);
         lemma_small(b + c);
-        assert(0 * 0 == 0);
+        assert(0 * 0 == 0) by (nonlinear_arith);
     }
 }
 pub proof fn lemma_u32_prod(a: int, b: int, c: int)
